@@ -1,5 +1,6 @@
 import FractopoModel.Model.Cli
 import FractopoModel.Generated.Cli
+import FractopoModel.Generated.ErrorColumn
 import FractopoModel.Spec.Validators
 /-!
 # C19 — CLI and file round trips
@@ -103,6 +104,22 @@ theorem C19_repr_injective (l l' : List (List Char)) (hq : ∀ a ∈ l, '\'' ∉
   have h1 := C19_repr_parse l hq
   have h2 := C19_repr_parse l' hq'
   rw [h] at h1; rw [h1] at h2; exact Option.some.inj h2
+
+/-- **The error column under its Shapefile name.** A Shapefile keeps the first 10 characters of a field name (dBase; the behaviour of the
+driver is what S19-tracevalidate observes). The regenerated `ERROR_COLUMN_TRUNC` is exactly the first 10 characters of the error column name, for
+every name (shorter names unchanged), so the column a validated Shapefile carries is one of the two that `run_validation` drops from its input
+before validating again (`Gen.stale_columns`, shape-checked) -- a re-validated file gets fresh errors under the same single column. -/
+theorem C19_error_column_shapefile_name (col : List Char) :
+    Gen.error_column_trunc col = col.take 10 ∧ col.take 10 ∈ Gen.stale_columns col ∧ col ∈ Gen.stale_columns col := by
+  have h : Gen.error_column_trunc col = col.take 10 := by
+    unfold Gen.error_column_trunc pySliceL
+    by_cases hl : col.length > 9
+    · simp [hl]
+    · have : col.length ≤ 10 := by omega
+      simp [hl, List.take_of_length_le this]
+  exact ⟨h, by simp [Gen.stale_columns, h], by simp [Gen.stale_columns]⟩
+
+example : String.ofList (Gen.error_column_trunc Gen.error_column) = "VALIDATION" ∧ String.ofList Gen.error_column = "VALIDATION_ERRORS" := by decide
 
 example : String.ofList (pyTupleReprC ["V NODE".toList]) = "('V NODE',)" ∧ pyTupleReprC [] = "()".toList := by decide
 
